@@ -8,6 +8,7 @@
    and error code", "RectClip(PathsD) checks the range of the rectangle", "BooleanOp(PathsD) looks at ClipperD::ErrorCode()"
    and "InflatePaths(PathsD) has no delta == 0 shortcut". *)
 From Coq Require Import ZArith Floats List.
+From Clip Require base.Region model.Sweep1D proofs.Sweep1D_main.
 From Clip Require Import base.Geom.
 From Clip Require Import base.FloatModel.
 From Clip Require Import model.Scale.
@@ -34,8 +35,17 @@ Proof.
 Qed.
 Print Assumptions C11_check_precision_range.
 
-(* ---- success clause for all inputs: the sweep-model theorems (C11_never_fails*, from model/Sweep1D.v) are added here by
-   the integrator ---- *)
+(* ---- success clause: the only place where the engine clears succeeded_ is AddLocalMaxPoly, when the two edges of a
+   maxima pair are on the same side of their OutRec (front/front or back/back) and neither is an open end.  In the
+   sweep model (model/Sweep1D.v, tied to the code as described in Properties_C01.v) `step` returns None exactly
+   there.  For EVERY well-formed event history -- closed and open paths, all 16 rule combinations -- that never
+   happens: the invariant makes the sides of a maxima pair opposite.  Partial: histories with joined edges
+   (coincident / touching input handled by CheckJoinLeft/Right, Split) are outside the model; for those the success
+   clause is validated by the small-lattice enumeration of checks/C11.py. ---- *)
+Theorem C11_never_fails_partial : forall ct fr evs,
+  ct <> Region.NoClip -> Sweep1D_main.wf_trace ct fr nil evs = true -> Sweep1D.run ct fr nil evs <> None.
+Proof. exact Sweep1D_main.never_fails. Qed.
+Print Assumptions C11_never_fails_partial.
 
 (* precision outside +-8 is reported by: BooleanOp/Intersect/Union/Difference/Xor(PathsD) (+ tree), Union(subjects),
    InflatePaths(PathsD) [every delta], RectClip/RectClipLines(PathsD) [non-empty rectangle and paths],
